@@ -12,6 +12,7 @@ package dtls
 
 import (
 	"bytes"
+	"crypto/sha256"
 	"crypto/tls"
 	"encoding/binary"
 	"encoding/hex"
@@ -30,6 +31,7 @@ import (
 	"github.com/pion/dtls/v3/pkg/protocol"
 	"github.com/pion/dtls/v3/pkg/protocol/alert"
 	"github.com/pion/dtls/v3/pkg/protocol/extension"
+	extension12 "github.com/pion/dtls/v3/pkg/protocol/extension/dtls12"
 	extension13 "github.com/pion/dtls/v3/pkg/protocol/extension/dtls13"
 	"github.com/pion/dtls/v3/pkg/protocol/handshake"
 )
@@ -76,6 +78,10 @@ type c04Variant struct {
 	Resumed bool   `json:"resumed"`
 	HRR     bool   `json:"hrr"` // DTLS 1.3: force a HelloRetryRequest
 	CID     bool   `json:"cid"` // connection IDs negotiated
+	// Bare: the client offers as little as it can (no server name, no ALPN, no use_srtp, no extended master
+	// secret) while the server would negotiate all of them and holds several certificates chosen by server
+	// name: the setting in which an extension ADDED in transit can steer something
+	Bare bool `json:"bare"`
 }
 
 func c04Variants() []c04Variant {
@@ -92,6 +98,8 @@ func c04Variants() []c04Variant {
 			out = append(out, c04Variant{Name: s + "-" + e + "-resumed", Ver: 12, Suite: s, EMS: ems, Resumed: true})
 		}
 	}
+	out = append(out, c04Variant{Name: "cert-bare-full", Ver: 12, Suite: "cert", Bare: true})
+	out = append(out, c04Variant{Name: "certca-bare-full", Ver: 12, Suite: "certca", Bare: true})
 	out = append(out, c04Variant{Name: "cert-noems-full-cid", Ver: 12, Suite: "cert", CID: true})
 	out = append(out, c04Variant{Name: "psk-ems-full-cid", Ver: 12, Suite: "psk", EMS: true, CID: true})
 	out = append(out, c04Variant{Name: "v13-cert", Ver: 13, Suite: "cert", EMS: true})
@@ -163,6 +171,17 @@ func (v c04Variant) configs(cs, ss *c04Store) (*dtlsConfig, *dtlsConfig) {
 		// the client's first key share is for X25519; the server only accepts P-256
 		c.EllipticCurves = []elliptic.Curve{elliptic.X25519, elliptic.P256}
 		s.EllipticCurves = []elliptic.Curve{elliptic.P256}
+	}
+	if v.Bare {
+		// client: trusts the lab CA, names no server, offers no ALPN / use_srtp / extended master secret
+		c.ServerName = ""
+		c.SupportedProtocols = nil
+		c.SRTPProtectionProfiles = nil
+		c.ExtendedMasterSecret = DisableExtendedMasterSecret
+		// server: default certificate "server.verif", another one for "wrong.verif"; ALPN and EMS on request
+		s.Certificates = []tls.Certificate{cr.Server, cr.WrongName}
+		s.SRTPProtectionProfiles = nil
+		s.ExtendedMasterSecret = RequestExtendedMasterSecret
 	}
 	if cs != nil {
 		c.sessionStore = cs
@@ -279,6 +298,29 @@ func c04StripSH(typ extension.Type) func(c04Variant, handshake.Message) (handsha
 		m.Extensions, hit = c04StripExt(m.Extensions, typ)
 
 		return hit
+	})
+}
+
+// add extension `val` unless one of that type is already there
+func c04AddCH(typ extension.Type, val extension.Value) func(c04Variant, handshake.Message) (handshake.Message, bool) {
+	return c04CH(func(_ c04Variant, m *handshake.MessageClientHello) bool {
+		if c04HasExt(m.Extensions, typ) {
+			return false
+		}
+		m.Extensions = append(append([]extension.Value(nil), m.Extensions...), val)
+
+		return true
+	})
+}
+
+func c04AddSH(typ extension.Type, val extension.Value) func(c04Variant, handshake.Message) (handshake.Message, bool) {
+	return c04SH(func(_ c04Variant, m *handshake.MessageServerHello) bool {
+		if c04HasExt(m.Extensions, typ) {
+			return false
+		}
+		m.Extensions = append(append([]extension.Value(nil), m.Extensions...), val)
+
+		return true
 	})
 }
 
@@ -454,6 +496,22 @@ func c04Muts() []c04Mut { //nolint:maintidx,cyclop
 
 			return true
 		})},
+		// ---------------- ClientHello: ADD an extension the client did not send
+		{Name: "ch_add_sni", Dir: "c2s", HType: tCH, Fn: c04AddCH(extension.TypeServerName,
+			&extension.ServerNameOffer{ServerName: "wrong.verif"})},
+		{Name: "ch_add_alpn", Dir: "c2s", HType: tCH, Fn: c04AddCH(extension.TypeALPN,
+			&extension.ALPNOffer{Protocols: []string{"verif-b"}})},
+		{Name: "ch_add_ems", Dir: "c2s", HType: tCH, Fn: c04AddCH(extension.TypeExtendedMasterSecret,
+			&extension12.ExtendedMasterSecret{})},
+		{Name: "ch_add_srtp", Dir: "c2s", HType: tCH, Fn: c04AddCH(extension.TypeUseSRTP,
+			&extension.SRTPOffer{ProtectionProfiles: []extension.SRTPProtectionProfile{extension.SRTP_AEAD_AES_128_GCM}})},
+		{Name: "ch_add_sigalgs_cert", Dir: "c2s", HType: tCH, Fn: c04AddCH(extension.TypeSignatureAlgorithmsCert,
+			&extension.CertificateSignatureAlgorithms{Schemes: []uint16{0x0807}})}, // ed25519 only
+		// ---------------- ServerHello: ADD an answer the server did not give
+		{Name: "sh_add_alpn", Dir: "s2c", HType: tSH, Fn: c04AddSH(extension.TypeALPN,
+			&extension.ALPNSelection{Protocol: "verif-b"})},
+		{Name: "sh_add_ems", Dir: "s2c", HType: tSH, Fn: c04AddSH(extension.TypeExtendedMasterSecret,
+			&extension12.ExtendedMasterSecret{})},
 		// ---------------- HelloVerifyRequest (not part of the Finished transcript)
 		{Name: "hvr_cookie", Dir: "s2c", HType: tHVR, Fn: func(_ c04Variant, m handshake.Message) (handshake.Message, bool) {
 			h, ok := m.(*handshake.MessageHelloVerifyRequest)
@@ -728,45 +786,51 @@ func c04CertMut(f func([][]byte) [][]byte) func(c04Variant, handshake.Message) (
 // ---- the rewriter
 
 type c04Obs struct {
-	Kind      string         `json:"kind"`
-	Variant   c04Variant     `json:"variant"`
-	Mut       string         `json:"mut"`
-	Dir       string         `json:"dir"`
-	HType     int            `json:"htype"`
-	Applied   int            `json:"applied"` // records rewritten (retransmissions included)
-	Seen      int            `json:"seen"`    // records of the targeted type seen in that direction
-	RTDiff    int            `json:"rt_diff"` // unmodified decode/encode did not reproduce the bytes
-	Frag      int            `json:"frag"`    // targeted records that were fragments (left alone)
-	CRes      string         `json:"cres"`
-	SRes      string         `json:"sres"`
-	CErr      string         `json:"cerr"`
-	SErr      string         `json:"serr"`
-	CAlert    int            `json:"calert"` // alert raised by the client (-1 none seen)
-	SAlert    int            `json:"salert"`
-	CReads    int            `json:"creads"`
-	SReads    int            `json:"sreads"`
-	CSuite    int            `json:"csuite"` // negotiated parameters as reported by a side that succeeded
-	SSuite    int            `json:"ssuite"`
-	CALPN     string         `json:"calpn"`
-	SALPN     string         `json:"salpn"`
-	CSRTP     int            `json:"csrtp"`
-	SSRTP     int            `json:"ssrtp"`
-	BaseSuite int            `json:"base_suite"` // what an undisturbed handshake of the variant negotiates
-	BaseALPN  string         `json:"base_alpn"`
-	BaseSRTP  int            `json:"base_srtp"`
-	CEMS      int            `json:"cems"` // DTLS 1.2, side succeeded: extended master secret in use (0/1), -1 unknown
-	SEMS      int            `json:"sems"`
-	CCurve    int            `json:"ccurve"` // DTLS 1.2, side succeeded: key-exchange group, -1 unknown
-	SCurve    int            `json:"scurve"`
-	BaseEMS   int            `json:"base_ems"`
-	BaseCurve int            `json:"base_curve"`
-	Sched     string         `json:"sched"`  // delivery schedule: "" = datagrams as emitted, "split" = one datagram per record
-	Pieces    int            `json:"pieces"` // datagrams actually delivered
-	Target    string         `json:"target"` // ClientHello mutations: "" = every copy, ch1 = only the cookie-less one, ch2 = only the one with the cookie
-	Wire      []c03WireAlert `json:"wire_alerts"`
-	Delivered int            `json:"delivered"`
-	Storm     bool           `json:"storm"`          // more than c04MaxDatagrams datagrams: endpoints answer each other without pause
-	Tail      []string       `json:"tail,omitempty"` // last datagrams of a storm (sender:first-byte:length)
+	Kind         string         `json:"kind"`
+	Variant      c04Variant     `json:"variant"`
+	Mut          string         `json:"mut"`
+	Dir          string         `json:"dir"`
+	HType        int            `json:"htype"`
+	Applied      int            `json:"applied"` // records rewritten (retransmissions included)
+	Seen         int            `json:"seen"`    // records of the targeted type seen in that direction
+	RTDiff       int            `json:"rt_diff"` // unmodified decode/encode did not reproduce the bytes
+	Frag         int            `json:"frag"`    // targeted records that were fragments (left alone)
+	CRes         string         `json:"cres"`
+	SRes         string         `json:"sres"`
+	CErr         string         `json:"cerr"`
+	SErr         string         `json:"serr"`
+	CAlert       int            `json:"calert"` // alert raised by the client (-1 none seen)
+	SAlert       int            `json:"salert"`
+	CReads       int            `json:"creads"`
+	SReads       int            `json:"sreads"`
+	CSuite       int            `json:"csuite"` // negotiated parameters as reported by a side that succeeded
+	SSuite       int            `json:"ssuite"`
+	CALPN        string         `json:"calpn"`
+	SALPN        string         `json:"salpn"`
+	CSRTP        int            `json:"csrtp"`
+	SSRTP        int            `json:"ssrtp"`
+	BaseSuite    int            `json:"base_suite"` // what an undisturbed handshake of the variant negotiates
+	BaseALPN     string         `json:"base_alpn"`
+	BaseSRTP     int            `json:"base_srtp"`
+	CEMS         int            `json:"cems"` // DTLS 1.2, side succeeded: extended master secret in use (0/1), -1 unknown
+	SEMS         int            `json:"sems"`
+	CCurve       int            `json:"ccurve"` // DTLS 1.2, side succeeded: key-exchange group, -1 unknown
+	SCurve       int            `json:"scurve"`
+	CPeerCert    string         `json:"cpeer_cert"` // client succeeded: SHA-256 (first 8 bytes) of the server leaf it was shown
+	SSNI         string         `json:"ssni"`       // server succeeded: the server name its state holds (what GetCertificate was asked for)
+	SSigCert     int            `json:"ssigcert"`   // server succeeded: number of signature_algorithms_cert schemes it remembers
+	BasePeerCert string         `json:"base_peer_cert"`
+	BaseSNI      string         `json:"base_sni"`
+	BaseSigCert  int            `json:"base_sigcert"`
+	BaseEMS      int            `json:"base_ems"`
+	BaseCurve    int            `json:"base_curve"`
+	Sched        string         `json:"sched"`  // delivery schedule: "" = datagrams as emitted, "split" = one datagram per record
+	Pieces       int            `json:"pieces"` // datagrams actually delivered
+	Target       string         `json:"target"` // ClientHello mutations: "" = every copy, ch1 = only the cookie-less one, ch2 = only the one with the cookie
+	Wire         []c03WireAlert `json:"wire_alerts"`
+	Delivered    int            `json:"delivered"`
+	Storm        bool           `json:"storm"`          // more than c04MaxDatagrams datagrams: endpoints answer each other without pause
+	Tail         []string       `json:"tail,omitempty"` // last datagrams of a storm (sender:first-byte:length)
 }
 
 const c04MaxDatagrams = 400
@@ -1019,8 +1083,15 @@ func runC04(t *testing.T, v c04Variant, mut *c04Mut, sched ...string) c04Obs {
 				}
 				if p.Name == "client" {
 					obs.CEMS, obs.CCurve = ems, curve
+					if len(st.PeerCertificates) > 0 {
+						h := sha256.Sum256(st.PeerCertificates[0])
+						obs.CPeerCert = hex.EncodeToString(h[:8])
+					}
 				} else {
 					obs.SEMS, obs.SCurve = ems, curve
+					if st12, err := dtlsstate.As12(p.Conn.state); err == nil {
+						obs.SSNI, obs.SSigCert = st12.ServerName, len(st12.RemoteCertSignatureSchemes)
+					}
 				}
 				if p.Name == "client" {
 					obs.CSuite, obs.CALPN, obs.CSRTP = int(st.CipherSuiteID), st.NegotiatedProtocol, int(prof)
@@ -1040,6 +1111,7 @@ func runC04(t *testing.T, v c04Variant, mut *c04Mut, sched ...string) c04Obs {
 
 // quick tier: the split schedule is run for a representative subset of the mutations (thorough: all)
 var c04SplitQuick = map[string]bool{ //nolint:gochecknoglobals
+	"ch_add_sni": true, "ch_add_sni@ch1": true, "ch_add_alpn@ch1": true, "ch_add_ems@ch1": true,
 	"ch_strip_ems": true, "ch_narrow_alpn": true, "ch_narrow_groups": true, "ch_session_id": true, "ch_flip_random": true,
 	"ch_swap_suites": true, "ch_strip_ems@ch1": true, "ch_narrow_alpn@ch2": true,
 	"sh_alter_alpn": true, "sh_strip_ems": true, "sh_session_id": true, "sh_flip_random": true,
@@ -1064,6 +1136,7 @@ func TestVerifC04(t *testing.T) {
 		vBubble(t, func(t *testing.T) { base = runC04(t, v, nil) })
 		base.BaseSuite, base.BaseALPN, base.BaseSRTP = base.CSuite, base.CALPN, base.CSRTP
 		base.BaseEMS, base.BaseCurve = base.SEMS, base.SCurve
+		base.BasePeerCert, base.BaseSNI, base.BaseSigCert = base.CPeerCert, base.SSNI, base.SSigCert
 		out.emit(base)
 		// every ClientHello mutation has three targets: every copy, only the first (cookie-less) ClientHello,
 		// only the second (the one the Finished messages cover)
@@ -1104,6 +1177,7 @@ func TestVerifC04(t *testing.T) {
 				}
 				obs.BaseSuite, obs.BaseALPN, obs.BaseSRTP = base.CSuite, base.CALPN, base.CSRTP
 				obs.BaseEMS, obs.BaseCurve = base.SEMS, base.SCurve
+				obs.BasePeerCert, obs.BaseSNI, obs.BaseSigCert = base.CPeerCert, base.SSNI, base.SSigCert
 				if at := strings.Index(m.Name, "@"); at >= 0 {
 					obs.Target = m.Name[at+1:]
 				}
@@ -1117,6 +1191,7 @@ func TestVerifC04(t *testing.T) {
 				vBubble(t, func(t *testing.T) { sb = runC04(t, v, nil, "split") })
 				sb.BaseSuite, sb.BaseALPN, sb.BaseSRTP = base.CSuite, base.CALPN, base.CSRTP
 				sb.BaseEMS, sb.BaseCurve = base.SEMS, base.SCurve
+				sb.BasePeerCert, sb.BaseSNI, sb.BaseSigCert = base.CPeerCert, base.SSNI, base.SSigCert
 				out.emit(sb)
 			}
 		}
